@@ -230,7 +230,7 @@ def judge_sessions(prop, rep, events, name):
         si = bisect.bisect_right(starts, v["index"]) - 1
         lo = starts[si]
         ev = events[v["index"]]
-        cls = re.sub(r"(model|random|life)\d+", r"\1", v["cls"])
+        cls = re.sub(r"(model|random|life|stale)\d+", r"\1", v["cls"])
         keep = ("ev", "keys", "quit", "code", "added", "hex", "exit", "alive", "quit_sent", "retry", "tag", "filter_time", "panic",
                 "termios_before", "termios_after", "modes")
         hi = next((j for j in range(v["index"], len(events)) if events[j]["ev"] == "session_end"), v["index"])
@@ -334,6 +334,16 @@ def random_session(rng, i):
             steps.append(("arrive", rng.random() < 0.7))
         else:
             steps.append(("raw", rng.choice((b"\x1b[<0;500;500M", b"\x1b[99~", b"\x00", b"\x1b[<64;1;1M", b"\xc3\xa9", b"\x1b[1;5A"))))
+        # keys and mouse events arriving together, handled in one go before the next draw (what was drawn last and what
+        # the state says now may differ: a tab switch followed by a click)
+        if rng.random() < 0.12:
+            burst = b""
+            for _ in range(rng.randrange(2, 5)):
+                if rng.random() < 0.5:
+                    burst += apps.KEYS[rng.choice(("F1", "F2", "F3", "F4", "F5", "Tab", "Enter", "Down"))]
+                else:
+                    burst += apps.mouse(rng.choice(("down", "down", "up", "drag", "scrollup")), rng.randrange(0, size[1]), rng.randrange(0, size[0]))
+            steps.append(("raw", burst))
     # type-ahead after the quit key: a burst in which q / Ctrl-C is followed by further keys (the request stands)
     if rng.random() < 0.25:
         steps.append(("keys", [rng.choice(KEYNAMES) for _ in range(rng.randrange(0, 2))] + [rng.choice(("q", "CtrlC"))]
@@ -435,7 +445,18 @@ def run(prop, tier, seed, rep):
     bindir = core.build_apps()
     msess, nmodel = model_sessions(tier, rep, rng, 16 if tier == "quick" else 400)
     rsess = [random_session(rng, i) for i in range(24 if tier == "quick" else 1500)]
-    jobs = msess + rsess
+    # what was drawn last and what the state says now can differ within one burst: a key that changes the tab followed at
+    # once by a click (touchscreen buttons exist only where they were drawn), in both directions
+    stale = []
+    for i, touch in enumerate((True, True, False)):
+        st = [("frame",), ("key", "F4"), ("raw", apps.KEYS["F1"] + apps.mouse("down", 50, 15)), ("frame",),
+              ("key", "F5"), ("raw", apps.KEYS["Tab"] + apps.mouse("down", 5, 8)), ("frame",),
+              ("arrive", True), ("key", "F3"), ("key", "Down"), ("raw", apps.KEYS["Enter"] + apps.mouse("down", 5, 12) + apps.mouse("up", 5, 12)), ("frame",),
+              ("raw", apps.KEYS["F3"] + apps.mouse("down", 5, 6)), ("frame",), ("raw", apps.KEYS["F2"] + apps.mouse("down", 5, 20) + apps.mouse("drag", 40, 12)), ("frame",)]
+        if i == 1:
+            st = st[4:] + st[:4]
+        stale.append(dict(steps=st, tag=f"stale{i}", size=(24, 80), touch=touch, filter_time=120, quit_at_end=True))
+    jobs = msess + rsess + stale
 
     def do(j):
         return session(bindir, **j)
@@ -493,7 +514,7 @@ def run(prop, tier, seed, rep):
         job = jobs[si] if si < len(jobs) else {"tag": "cli"}
         for owner, field in v["pairs"]:
             k = f"{owner}|{v['cls']}|{field}"
-            cls = re.sub(r"(model|random)\d+", r"\1", v["cls"])
+            cls = re.sub(r"(model|random|stale)\d+", r"\1", v["cls"])
             summary.setdefault(k, [0, ev.get("panic_text", ev.get("stderr", ""))])[0] += 1
             w = {"kind": "ui", "event": {k2: ev[k2] for k2 in ev if k2 not in ("planes",)}}
             if "steps" in job:
